@@ -454,3 +454,36 @@ func (l *Loop) StopSet() map[*ssa.BasicBlock]bool {
 	}
 	return m
 }
+
+// Bound configures ex to explore one iteration of the loop: paths stop at the
+// header and at the normal exit when it is entered from the header.
+func (l *Loop) Bound(ex *Explorer) {
+	ex.Stop = l.StopSet()
+	ex.StopPred = map[*ssa.BasicBlock]*ssa.BasicBlock{}
+	if x := l.NormalExit(); x != nil {
+		ex.StopPred[x] = l.Header
+	}
+}
+
+// RetVal returns the value returned as result i at this return site. In a
+// function with defers go/ssa spills results into cells (`*res = x;
+// rundefers; return *res`); the value stored in the return's own block is
+// the one this site returns.
+func RetVal(ret *ssa.Return, i int) ssa.Value {
+	v := ret.Results[i]
+	u, ok := v.(*ssa.UnOp)
+	if !ok || u.Op != token.MUL {
+		return v
+	}
+	cell, ok := u.X.(*ssa.Alloc)
+	if !ok {
+		return v
+	}
+	b := ret.Block()
+	for k := len(b.Instrs) - 1; k >= 0; k-- {
+		if st, ok := b.Instrs[k].(*ssa.Store); ok && st.Addr == cell {
+			return st.Val
+		}
+	}
+	return v
+}
